@@ -135,7 +135,8 @@ Definition mark_expired (t : task) : task :=
          (t_comp t) false (t_prep t) (t_trig t).
 
 (* spawn_on_output, the loop over the children of one output.
-   pool: ids now in the pool; gone: ids that were in the pool and finished (spawn_task gives None) *)
+   pool: ids now in the pool; gone: ids that were in the pool in a flow and finished (spawn_task
+   finds their history and gives None) *)
 Fixpoint spawn_list (e : env) (parent : N) (pool gone : list N) (cs : list N) : list task * list event :=
   match cs with
   | [] => ([], [])
@@ -380,7 +381,7 @@ Record ckpt := mkCkpt {
   k_hold : list N;             (* tasks_to_hold / beyond the hold point, at the time of the pass *)
   k_now : Z;
   k_before : list task;        (* pool_view at entry of clock_expire_tasks, get_tasks() order *)
-  k_gone : list N;             (* instances that were in the pool earlier and are not any more *)
+  k_gone : list N;             (* instances that left the pool while in a flow and are not back *)
   k_evs : list event;          (* what the real pass did, in order *)
   k_after : option (list task);   (* pool at exit of clock_expire_tasks (None: identical to k_before) *)
   k_has_release : bool;        (* release_queued_tasks ran in this iteration (not stopping) *)
